@@ -1,5 +1,5 @@
 #!/usr/bin/env python3
-"""Writes /verif/corpus/*.ops: minimal regression histories for the eight defects repaired in /repo (F1–F8) and a few
+"""Writes /verif/corpus/*.ops: minimal regression histories for the nine defects repaired in /repo (F1–F9) and a few
 hand-picked boundary histories.  The corpus runs first in every check (model vs code on all fields + oracles)."""
 import os
 H = lambda s: s.encode().hex()
@@ -57,6 +57,16 @@ files["F6-aliasing-key"] = ("C11,C01,C02", [world()] + fungible(0, A0, TOK, "64"
     call(0, "ESDTNFTAddURI", A0, A0, ALIAS_TOK, ALIAS_NONCE, H("u")),
     call(0, "ESDTNFTUpdateAttributes", A0, A0, ALIAS_TOK, ALIAS_NONCE, H("x")),
     call(0, "MultiESDTNFTTransfer", A0, A0, B0, "01", ALIAS_TOK, ALIAS_NONCE, "05"), "dump 0"])
+# F9: two real tokens whose keys alias (fungible "TOK-aaaaa\x01" and NFT collection "TOK-aaaaa", nonce 1): crediting the
+# fungible one onto the NFT holder must be refused, not nil-dereference — same shard (inside the sender call) and as a
+# delivery on another shard
+F9_T, F9_F = H("TOK-aaaaa"), H("TOK-aaaaa") + "01"
+A1 = addr(0x44, 1)
+files["F9-aliasing-credit"] = ("C11", [world()] + nft(0, A0, F9_T) + fungible(0, B0, F9_F, "09") + [
+    call(0, "MultiESDTNFTTransfer", B0, B0, A0, "01", F9_F, "-", "01"), "dump 0"] +
+    nft(1, A1, F9_T) + [
+    call(0, "MultiESDTNFTTransfer", B0, B0, A1, "01", F9_F, "-", "02"),
+    "#@ deliver 0", call(1, "MultiESDTNFTTransfer", B0, A1, "01", F9_F, "00", "02", gas="0"), "dump 1"])
 # F7: SaveKeyValue with gas 0 and an unchanged value must not wrap GasRemaining
 files["F7-skv-zero-gas"] = ("C06,C16", [world(),
     call(0, "SaveKeyValue", A0, A0, H("k"), H("v")),
